@@ -153,7 +153,7 @@ def gen_history(rng):
         return gen_hostile_cache_history(rng)
     kind = 'markup' if rng.random() < 0.5 else 'stylesheet'
     cache_ids = ['c0', 'c1']
-    slots = [slot_spec(rng, kind, cache_ids) for _ in range(rng.randint(1, 3))]
+    slots = [slot_spec(rng, kind, cache_ids) for _ in range(rng.randint(1, 3) if rng.random() < 0.9 else rng.randint(4, 6))]
     if rng.random() < 0.15:
         slots.append(slot_spec(rng, 'stylesheet' if kind == 'markup' else 'markup', cache_ids))
     ok, bad = (MARKUP_OK, MARKUP_BAD) if kind == 'markup' else (CSS_OK, CSS_BAD)
@@ -163,7 +163,7 @@ def gen_history(rng):
         o, b = (CSS_OK, CSS_BAD) if styl else (MARKUP_OK, MARKUP_BAD)
         return rng.choice(b) if rng.random() < 0.25 else rng.choice(o)
     calls = []
-    for _ in range(rng.randint(1, 8)):
+    for _ in range(rng.randint(1, 8) if rng.random() < 0.9 else rng.randint(9, 24)):
         si = rng.randrange(len(slots))
         calls.append({'slot': si, 'abbr': abbr_for(si)})
     pi = calls[rng.randrange(len(calls))]['slot'] if rng.random() < 0.85 else rng.randrange(len(slots))
